@@ -3,6 +3,11 @@ package main
 import (
 	"bufio"
 	"bytes"
+	"crypto/ed25519"
+	"crypto/sha256"
+	stdx509 "crypto/x509"
+	"crypto/x509/pkix"
+	"encoding/asn1"
 	"encoding/hex"
 	"encoding/json"
 	"fmt"
@@ -64,6 +69,7 @@ type KModel struct {
 	A       []int `json:"a"`
 	B       []int `json:"b"`
 	TA      []int `json:"ta"`
+	DerLen  int   `json:"derlen"`
 	Cmp     int   `json:"cmp"`
 }
 
@@ -84,16 +90,21 @@ type KEvent struct {
 	Fits   bool `json:"fits"`
 	Accept bool `json:"accept"`
 	// key / der
-	Der      string `json:"der"`
-	Empty    bool   `json:"empty"`
-	PErr     bool   `json:"perr"`
-	PErrMsg  string `json:"perrmsg"`
-	EqKey    bool   `json:"eqkey"`
-	ReDerEq  bool   `json:"redereq"`
-	AppendOK bool   `json:"appendok"`
-	Rt       bool   `json:"rt"`
-	FpSame   bool   `json:"fpsame"`
-	Canon    bool   `json:"canon"`
+	Der       string `json:"der"`
+	Empty     bool   `json:"empty"`
+	PErr      bool   `json:"perr"`
+	PErrMsg   string `json:"perrmsg"`
+	EqKey     bool   `json:"eqkey"`
+	ReDerEq   bool   `json:"redereq"`
+	AppendOK  bool   `json:"appendok"`
+	Rt        bool   `json:"rt"`
+	FpSame    bool   `json:"fpsame"`
+	Canon     bool   `json:"canon"`
+	RefOK     bool   `json:"refok"`
+	CanonHand bool   `json:"canonhand"`
+	CanonStd  bool   `json:"canonstd"`
+	DerLen    int    `json:"derlen"`
+	MDerLen   int    `json:"mderlen"`
 	// pair
 	Equal   bool `json:"equal"`
 	EqualBA bool `json:"equalba"`
@@ -190,9 +201,35 @@ func derLen(n int) []byte {
 		return []byte{byte(n)}
 	case n < 256:
 		return []byte{0x81, byte(n)}
-	default:
+	case n < 65536:
 		return []byte{0x82, byte(n >> 8), byte(n)}
+	default:
+		return []byte{0x83, byte(n >> 16), byte(n >> 8), byte(n)}
 	}
+}
+
+// derHex is what the trace carries of an encoding: all of a short one, head and digest of a long one.
+func derHex(der []byte) string {
+	if len(der) <= 160 {
+		return hex.EncodeToString(der)
+	}
+	h := sha256.Sum256(der)
+	return hex.EncodeToString(der[:24]) + "..." + hex.EncodeToString(h[:12])
+}
+
+func keyID(k *x509.PublicKey) string {
+	h := sha256.Sum256(x509.MarshalPublicKey(nil, k))
+	return hex.EncodeToString(h[:16])
+}
+
+// referenceDER encodes SEQUENCE { AlgorithmIdentifier, BIT STRING } with encoding/asn1, independently of
+// the library under test; ok is false when encoding/asn1 refuses the object identifier.
+func referenceDER(arcs []int, body []byte) ([]byte, bool) {
+	der, err := asn1.Marshal(struct {
+		Algo pkix.AlgorithmIdentifier
+		Key  asn1.BitString
+	}{pkix.AlgorithmIdentifier{Algorithm: asn1.ObjectIdentifier(arcs)}, asn1.BitString{Bytes: body, BitLength: 8 * len(body)}})
+	return der, err == nil
 }
 
 func tlv(tag byte, content []byte) []byte {
@@ -271,11 +308,13 @@ func buildDER(form string, arcs []int, body []byte, r *rand.Rand, v int) []byte 
 	case "truncated":
 		outer = outer[:len(outer)-1]
 	case "nonminimal-length":
-		if len(content) < 128 {
-			outer = append([]byte{outerTag, 0x81, byte(len(content))}, content...)
+		l := derLen(len(content))
+		if len(l) == 1 {
+			l = []byte{0x81, l[0]}
 		} else {
-			outer = append([]byte{outerTag, 0x82, 0x00, byte(len(content))}, content...)
+			l = append([]byte{l[0] + 1, 0x00}, l[1:]...)
 		}
+		outer = append(append([]byte{outerTag}, l...), content...)
 	case "indefinite-length":
 		outer = append(append([]byte{outerTag, 0x80}, content...), 0x00, 0x00)
 	case "empty-input":
@@ -287,8 +326,8 @@ func buildDER(form string, arcs []int, body []byte, r *rand.Rand, v int) []byte 
 }
 
 func (h *keysRun) fpBoth(k *x509.PublicKey, site string) {
-	h.w.Emit(FpEvent{Ev: "fp", Kind: "p2pkeswarm", Key: hex.EncodeToString(x509.MarshalPublicKey(nil, k)), Site: site, ID: idInts(p2pkeswarm.DefaultFingerprinter(k))})
-	h.w.Emit(FpEvent{Ev: "fp", Kind: "quicswarm", Key: hex.EncodeToString(x509.MarshalPublicKey(nil, k)), Site: site, ID: idInts(quicswarm.DefaultFingerprinter(*k))})
+	h.w.Emit(FpEvent{Ev: "fp", Kind: "p2pkeswarm", Key: keyID(k), Site: site, ID: idInts(p2pkeswarm.DefaultFingerprinter(k))})
+	h.w.Emit(FpEvent{Ev: "fp", Kind: "quicswarm", Key: keyID(k), Site: site, ID: idInts(quicswarm.DefaultFingerprinter(*k))})
 	h.nfp += 2
 }
 
@@ -374,8 +413,19 @@ func runKeys(in string, w *trace.Writer, seed int64, variants int) string {
 					ev.Class = fmt.Sprintf("%s/len%d/%s", c.C.Key.OID, c.C.Key.Body, c.C.Key.Fill)
 					k := mkKey(c.M.Arcs, c.C.Key, v, r)
 					der := x509.MarshalPublicKey(nil, &k)
-					ev.Der = hex.EncodeToString(der)
+					ev.Der, ev.DerLen, ev.MDerLen = derHex(der), len(der), c.M.DerLen
 					ev.Empty = len(der) == 0
+					// CanonicalDER: three independent reference encoders
+					ev.CanonStd = true
+					if ref, ok := referenceDER(arcsOf(c.M.Arcs), k.Data); ok {
+						ev.RefOK = true
+						ev.Canon = bytes.Equal(der, ref)
+						ev.CanonHand = c.M.Valid && bytes.Equal(der, buildDER("canonical", arcsOf(c.M.Arcs), k.Data, r, v))
+						if c.C.Key.OID == "ed25519" && len(k.Data) == ed25519.PublicKeySize {
+							std, err := stdx509.MarshalPKIXPublicKey(ed25519.PublicKey(k.Data))
+							ev.CanonStd = err == nil && bytes.Equal(der, std)
+						}
+					}
 					prefix := []byte{1, 2, 3}
 					ev.AppendOK = bytes.Equal(x509.MarshalPublicKey(append([]byte{}, prefix...), &k), append(prefix, der...))
 					k2, err := x509.ParsePublicKey(der)
@@ -408,7 +458,7 @@ func runKeys(in string, w *trace.Writer, seed int64, variants int) string {
 					arcs := arcsOf(c.M.Arcs)
 					body := bodyOf(c.C.Key, v, r)
 					der := buildDER(c.C.Form, arcs, body, r, v)
-					ev.Der = hex.EncodeToString(der)
+					ev.Der = derHex(der)
 					k1, err := x509.ParsePublicKey(der)
 					if err != nil {
 						ev.PErr, ev.PErrMsg = true, clip(err.Error(), 100)
